@@ -12,7 +12,8 @@ The model is of the code **as it is now**:
 * `aggregate(chrom)`: the `while hi < chrom_hi` loop.  Its state `(lo, datasets[lo:chrom_hi])` is the
   pair `(lo, rem)` here; one turn takes the tentative last record `rem[min(chunksize, len) - 1]`,
   looks up the END of the bin that contains it (a search over the ABSOLUTE starts of the whole table,
-  `KeyError` when the absolute position is negative), moves `hi` to
+  `KeyError` when the absolute position is negative; the lookup `bins["end"][bin_id]` is by row LABEL:
+  `binEndL` models an arbitrarily labelled frame, `binEnd` the default labels `0 … n-1`), moves `hi` to
   `bisect_left(cuts1, bin_end, lo, chrom_hi)` (= `lo +` the number of remaining records with
   `cut < bin_end`, the column being sorted), falls back to `chrom_hi` when that is `lo`, then bins the
   chunk: `IndexError` when a second chromosome id is outside `[-(n+1), n]` (numpy indexing of the
@@ -92,6 +93,20 @@ def binEnd (bins : BinTable) (cid : Nat) (pos : Int) : Except Err Int :=
     | some b => .ok (b.stop : Int)
     | none => .error .key
 
+/-- pandas' default row labels `0 … n-1` (what `parse_bins` hands to `cooler cload hiclib`) -/
+def rangeLabels (bins : BinTable) : List Int := (List.range bins.length).map Int.ofNat
+
+/-- `bins["end"][bin_id]` as the code stands, for a bin-table frame whose rows carry the integer LABELS
+`labels`: the lookup is by label, not by position — no row with that label is a `KeyError`, several rows
+give a Series and the comparison inside `bisect_left` raises `ValueError`.  With the default labels this
+is `binEnd` (`C05.binEndL_range`); any other labelling reads the end of a different bin. -/
+def binEndL (bins : BinTable) (labels : List Int) (cid : Nat) (pos : Int) : Except Err Int :=
+  let id := absBin bins cid pos
+  match (labels.zip bins).filter fun lb => decide (lb.1 = id) with
+  | [] => .error .key
+  | [lb] => .ok (lb.2.stop : Int)
+  | _ => .error .value
+
 /-! ### one chunk -/
 
 /-- the two table indices of every record (`chrom_abspos[h5pairs[C][lo:hi]]`) -/
@@ -155,13 +170,14 @@ def chunkBounds (binEndOf : Int → Except Err Int) (cs lo : Nat) (rem : List HR
   | .error e => .error e
   | .ok l => .ok (l.map (·.1))
 
-/-- `aggregate(chrom)` -/
-def aggregate (bins : BinTable) (n : Nat) (bs : Option Nat) (cs : Nat) (recs : List HRec)
-    (part : List (Int × Nat × Nat)) (cid : Nat) : Except Err (List ((Nat × Nat) × List Cell)) :=
+/-- `aggregate(chrom)`; `be cid pos` = the bin-end lookup for cut `pos` of chromosome `cid` -/
+def aggregate (be : Nat → Int → Except Err Int) (bins : BinTable) (n : Nat) (bs : Option Nat) (cs : Nat)
+    (recs : List HRec) (part : List (Int × Nat × Nat)) (cid : Nat) :
+    Except Err (List ((Nat × Nat) × List Cell)) :=
   match partGet part (cid : Int) with
   | none => .ok []
   | some (lo, hi) =>
-    aggLoop (binEnd bins cid) (procChunk bins n bs) cs (hi - lo) lo ((recs.drop lo).take (hi - lo))
+    aggLoop (be cid) (procChunk bins n bs) cs (hi - lo) lo ((recs.drop lo).take (hi - lo))
 
 /-- `for chrom in contigs: for df in f(chrom): yield df` collected; the first error wins -/
 def streamOver {α : Type} (f : Nat → Except Err (List α)) : List Nat → Except Err (List α)
@@ -176,12 +192,22 @@ def streamOver {α : Type} (f : Nat → Except Err (List α)) : List Nat → Exc
 
 /-- `list(HDF5Aggregator(h5, chromsizes, bins, chunksize))` with the `(lo, hi)` of every chunk;
 `n` = number of chromosomes of the table -/
-def hiclibChunks (bins : BinTable) (n cs : Nat) (recs : List HRec) :
+def hiclibChunksWith (be : Nat → Int → Except Err Int) (bins : BinTable) (n cs : Nat) (recs : List HRec) :
     Except Err (List ((Nat × Nat) × List Cell)) :=
   if cs = 0 ∧ recs ≠ [] then .error .value
   else match indexChroms recs with
     | .error e => .error e
-    | .ok part => streamOver (aggregate bins n (getBinsize bins) cs recs part) (List.range n)
+    | .ok part => streamOver (aggregate be bins n (getBinsize bins) cs recs part) (List.range n)
+
+/-- the bin table with pandas' default row labels -/
+def hiclibChunks (bins : BinTable) (n cs : Nat) (recs : List HRec) :
+    Except Err (List ((Nat × Nat) × List Cell)) :=
+  hiclibChunksWith (binEnd bins) bins n cs recs
+
+/-- the bin table presented with the row labels `labels` (same content) -/
+def hiclibChunksL (bins : BinTable) (labels : List Int) (n cs : Nat) (recs : List HRec) :
+    Except Err (List ((Nat × Nat) × List Cell)) :=
+  hiclibChunksWith (binEndL bins labels) bins n cs recs
 
 def hiclibStream (bins : BinTable) (n cs : Nat) (recs : List HRec) : Except Err (List (List Cell)) :=
   match hiclibChunks bins n cs recs with
